@@ -249,7 +249,7 @@ Qed.
 
 (* ---- the subframes of a frame ---- *)
 Definition sub_ready (block : N) (s : subframe) (b : N) : Prop :=
-  sub_block s = block /\ sub_bps s = b /\ verify_subframe s = true /\ sub_typed s /\ sub_u_ok s.
+  sub_block s = block /\ sub_bps s = b /\ verify_subframe s = true /\ sub_typed s /\ sub_u_ok s /\ sub_quot_u32 s.
 
 Lemma subframes_ops_bits : forall subs cur,
   Forall (fun s => verify_subframe s = true) subs ->
@@ -266,7 +266,7 @@ Lemma flac_reads_subframes block : forall subs bpss,
 Proof.
   induction subs as [|s t IH]; intros bpss H rd0 rest Hwf Hb; inversion H as [|? b ? bt Hs Ht]; subst.
   - exists rd0. cbn [read_subframes map concat app length] in *. fin5 Hwf; [lia | apply rd_adv_refl].
-  - destruct Hs as (Hblk & Hbps & Hv & Hty & Hu). cbn [map concat] in Hb. rewrite <- app_assoc in Hb.
+  - destruct Hs as (Hblk & Hbps & Hv & Hty & Hu & _). cbn [map concat] in Hb. rewrite <- app_assoc in Hb.
     destruct (flac_reads_subframe s Hv Hty Hu rd0 _ Hwf Hb) as (r1 & E1 & Hb1 & Hwf1 & Hp1 & Hk1).
     destruct (IH bt Ht r1 rest Hwf1 Hb1) as (r2 & E2 & Hb2 & Hwf2 & Hp2 & Hk2).
     exists r2. cbn [read_subframes]. rewrite <- Hblk at 1. rewrite <- Hbps at 1. rewrite E1, E2.
